@@ -63,3 +63,57 @@ Example C01_nonvacuous :
 Proof.
   split; [repeat constructor|]. split; [reflexivity|]. split; [reflexivity|]. split; [exact lbuf_make_ok | exact sbuf_make_ok].
 Qed.
+
+(* ------------------------------------------------------------------------------------------ *)
+(* THE MODEL IS THE C TEXT (coq/TrLbufLines.v): linelength and linecount of /repo/lbuf.c -- the two helpers with which lbuf_replace
+   splits a text into lines --, translated by tools/c2clite.py into CLite terms (coq/GenCFuncs.v, whitelist
+   tools/c2clite.d/50_lbuf.list; strchr / strlen are builtins of CLite.v), RUN on a memory in which block b holds the
+   NUL-terminated string s: from EVERY offset o inside s, linecount returns IoDefs.linecount of the rest of the text
+   (= the number of lines of split_lines, C01_split_concat / linecount_len) and linelength returns `linelen` of it, the number
+   of bytes of the first line of the model's split (C01_tr_linelen_is_the_split).  Memory unchanged, every load inside the
+   block, no overflow: the one bound needed is that the text is shorter than 2 GB (both functions return int). *)
+From NV Require Import CLite CLiteProps GenCFuncs TrLbufLines.
+
+Theorem C01_tr_linelen_is_the_split : forall t : bytes, t <> [] ->
+  split_lines t = norm (firstn (linelen t) t) :: split_lines (skipn (linelen t) t) /\
+  linecount t = S (linecount (skipn (linelen t) t)) /\ (1 <= linelen t <= length t)%nat.
+Proof. exact (fun t H => conj (split_lines_step t H) (conj (linecount_step t H) (conj (linelen_pos t H) (linelen_le t)))). Qed.
+Print Assumptions C01_tr_linelen_is_the_split.
+
+Theorem C01_tr_linelength : forall m b s o d fuel,
+  str_at m b s -> nonul s -> (o <= length s)%nat -> (Z.of_nat (length s) <= 2147483647)%Z ->
+  callf cprog fuel (S d) F_lbuf_linelength [VPtr b (Z.of_nat o)] m = Ok (VInt (Z.of_nat (linelen (skipn o s))), m).
+Proof. exact tr_linelength. Qed.
+Print Assumptions C01_tr_linelength.
+
+Theorem C01_tr_linecount : forall m b s o d fuel,
+  str_at m b s -> nonul s -> (o <= length s)%nat -> (Z.of_nat (length s) <= 2147483647)%Z ->
+  (linecount (skipn o s) < fuel)%nat ->
+  callf cprog fuel (S (S d)) F_lbuf_linecount [VPtr b (Z.of_nat o)] m = Ok (VInt (Z.of_nat (linecount (skipn o s))), m).
+Proof. exact tr_linecount. Qed.
+Print Assumptions C01_tr_linecount.
+
+(* linecount(NULL) = 0 (lbuf_replace is called with s = NULL for a pure deletion) *)
+Theorem C01_tr_linecount_null : forall m d fuel, (0 < fuel)%nat ->
+  callf cprog fuel (S (S d)) F_lbuf_linecount [VInt 0] m = Ok (VInt 0, m).
+Proof. exact tr_linecount_null. Qed.
+Print Assumptions C01_tr_linecount_null.
+
+(* not vacuous, and the translated functions RUN: the text "ab\ncd\n\nef" (no final newline) in block 12: four lines;
+   linelength is 3 at offset 0, 1 at the empty line (offset 6), 2 on the unterminated last line (offset 7), 0 at the
+   terminator; linecount from offset 3 is 3; NULL gives 0; the model splits it into the same four lines *)
+Example C01_tr_nonvacuous :
+  let s := [97; 98; 10; 99; 100; 10; 10; 101; 102]%N in
+  let m0 := repeat [] 12 ++ [cstr_block (zb s)] in
+  let ll (o : Z) := callf cprog 10 3 F_lbuf_linelength [VPtr 12 o] m0 in
+  let lc (o : Z) := callf cprog 10 3 F_lbuf_linecount [VPtr 12 o] m0 in
+  str_at m0 12 s /\ nonul s /\
+  lc 0%Z = Ok (VInt 4, m0) /\ linecount s = 4%nat /\ length (split_lines s) = 4%nat /\
+  split_lines s = [[97; 98; 10]; [99; 100; 10]; [10]; [101; 102; 10]]%N /\
+  ll 0%Z = Ok (VInt 3, m0) /\ linelen s = 3%nat /\ ll 6%Z = Ok (VInt 1, m0) /\ ll 7%Z = Ok (VInt 2, m0) /\ ll 9%Z = Ok (VInt 0, m0) /\
+  lc 3%Z = Ok (VInt 3, m0) /\ lc 9%Z = Ok (VInt 0, m0) /\
+  callf cprog 10 3 F_lbuf_linecount [VInt 0] m0 = Ok (VInt 0, m0) /\
+  ll 10%Z = Err EOob.
+Proof.
+  cbv zeta. split; [reflexivity|]. split; [repeat constructor|]. vm_compute. repeat split.
+Qed.
